@@ -16,4 +16,19 @@ def overrides : List (String × String) :=
    ("ai.onnx.v17", "Compress"),
    ("ai.onnx.v17", "Loop")]
 
+/-- Classes that define their own `propagate_values` (module under src/spox, class). -/
+def valueOverrides : List (String × String) :=
+  [("_inline", "_Inline"),
+   ("_internal_op", "_Initializer"),
+   ("_node", "Node"),
+   ("_standard", "StandardNode"),
+   ("opset.ai.onnx.v17", "_Constant"),
+   ("opset.ai.onnx.v19", "_Constant"),
+   ("opset.ai.onnx.v21", "_Constant")]
+
+/-- Operators excluded from value propagation (`_NON_DETERMINISTIC_OPS`, consulted by
+    `propagate_values_onnx`; empty when the guard is gone). -/
+def samplingGuard : List String :=
+  ["Bernoulli", "Dropout", "Multinomial", "RandomNormal", "RandomNormalLike", "RandomUniform", "RandomUniformLike"]
+
 end Generated.MLOverrides
